@@ -121,6 +121,18 @@ theorem stored_error_keeps_eof (stored : Option GoError) : duplexReadErrorStored
   simp [duplexReadErrorStored, GoError.isEOF, duplexReadError, wrapIfRSTError, wrapIfContextError, GoError.asError,
     GoError.rstName, GoError.isCtx]
 
+/-- **close_after_ctx_code** (F13): the context ended, the watcher stored its error and closed the
+    request pipe; whatever error draining the response body then meets, `CloseResponse` reports
+    canceled / deadline_exceeded. -/
+theorem close_after_ctx_code (k : CtxKind) (bodyErr : GoError) :
+    (clientCloseResponseError (setError none (.ctx k)) bodyErr).codeOf = ctxCode k := by
+  have hs : setError none (.ctx k) = some (.coded (ctxCode k) (.ctx k)) := by
+    cases k <;> simp [setError, wrapIfContextError, GoError.asError, GoError.isCtx, ctxCode]
+  simp [clientCloseResponseError, duplexCloseReadError, hs, wrapIfUncoded, wrapIfContextError, GoError.asError, GoError.codeOf]
+
+/-- history: without the preference the closed-pipe error of the drain comes out as unknown -/
+theorem close_after_ctx_fails_on_pinned : (clientCloseResponseError none .opaque).codeOf = codeUnknown := by decide
+
 /-- **request_ctx_code**: `Do` fails because the context ended (typically `*url.Error` wrapping the
     context error): the stored error — what every later operation reports — is canceled /
     deadline_exceeded, not unavailable. -/
